@@ -1,2 +1,3 @@
 import Driver.IterData
+import Driver.Seq
 import Driver.Slice
